@@ -87,8 +87,10 @@ PathStepOk(d, st) ==
     /\ st.fields = TopFields(d)
 PathRun(d, steps, i) ==
     IF i > Len(steps) THEN TRUE
-    ELSE LET d2 == Set(d, steps[i].path, steps[i].val) IN
-         PathStepOk(d2, steps[i]) /\ PathRun(d2, steps, i + 1)
+    ELSE LET v  == Norm(steps[i].g)
+             \* an unsupported value leaves the document unchanged
+             d2 == IF v = Err THEN d ELSE Set(d, steps[i].path, v)
+         IN PathStepOk(d2, steps[i]) /\ PathRun(d2, steps, i + 1)
 DocPathOk(e) == PathRun(EmptyObj, e.steps, 1)
 
 (* C15 *)
